@@ -59,7 +59,7 @@ class EngineEval:
 
     # ------------------------------------------------------------------ one evaluation
     def run(self, n, edges, fail=(), max_errors=0, scheduler=None, workers=1, choices=(), interrupt_after=None, start_fails_at=None,
-            exc_name="UserError"):
+            exc_name="UserError", start_interrupted_at=None):
         from .rewriterules import MG
         m, er = self.m, self.er
         e = er.engine
@@ -128,7 +128,8 @@ class EngineEval:
             return q
         # ---- threads
         def new_thread(group=None, target=None, name=None, args=(), kwargs=None, daemon=None):
-            t = Obj(None, {"target": target, "args": args, "kwargs": kwargs or {}, "started": False, "exited": False, "joined": False}, name=f"thread{len(st.threads)}")
+            t = Obj(None, {"target": target, "args": args, "kwargs": kwargs or {}, "started": False, "exited": False, "joined": False, "ident": None,
+                           "daemon": bool(daemon)}, name=f"thread{len(st.threads)}")
 
             def start():
                 if start_fails_at is not None and len([x for x in st.threads if x.attrs["started"]]) == start_fails_at:
@@ -141,7 +142,16 @@ class EngineEval:
                     st.events.append(("interrupt",))
                     raise AbsRaise(Obj(None, {}, name="KeyboardInterrupt"))
                 t.attrs["started"] = True
+                t.attrs["ident"] = 1000 + len(st.threads)
                 st.events.append(("start", t))
+                if start_interrupted_at is not None and len([x for x in st.threads if x.attrs["started"]]) - 1 == start_interrupted_at:
+                    # the interrupt arrives inside Thread.start(), after the new thread was launched: it is running (let it take an item)
+                    saved, st.items_left = st.items_left, 1
+                    self._run_worker(t)
+                    st.items_left = saved
+                    st.interrupted = True
+                    st.events.append(("interrupt",))
+                    raise AbsRaise(Obj(None, {}, name="KeyboardInterrupt"))
 
             def join(timeout=None):
                 if not t.attrs["started"]:
@@ -402,6 +412,8 @@ def _configs():
         for at in (0, 1, 2):
             for sched in (None, "cheap", "random"):
                 out.append(("startup", n, edges, (), 0, sched, 3, at))
+                # ... and with the interrupt delivered inside Thread.start() after the thread was launched
+                out.append(("startup-late", n, edges, (), 0, sched, 3, at))
     return out
 
 
@@ -410,11 +422,16 @@ def _eval_chunk(chunk):
     bad, n_eval = [], 0
     try:
         for kind, n, edges, fail, me, sched, w, extra in chunk:
+            late = False
             kw = dict(fail=fail, max_errors=me, scheduler=sched, workers=w)
             if kind == "interrupt":
                 kw["interrupt_after"] = extra
             elif kind == "startup":
                 kw["start_fails_at"] = extra
+            elif kind == "startup-late":
+                kw["start_interrupted_at"] = extra
+                kind = "startup"
+                late = True
             elif kind == "run-base":
                 kw["exc_name"] = "SystemExit"
                 kind = "run"
@@ -431,7 +448,8 @@ def _eval_chunk(chunk):
                 if dev is not None:
                     bad.append((kind, dev[0], f"graph with {n} node(s), edges {edges}, failing {sorted(fail)}, max_errors={me}, scheduler={sched!r}, "
                                 f"{w} worker(s)" + (f", interrupt after {extra} item(s)" if kind == "interrupt" else
-                                                    f", interrupt / failing start at worker {extra}" if kind == "startup" else "")
+                                                    (f", interrupt inside Thread.start() of worker {extra}, after the thread was launched" if late else
+                                                     f", interrupt / failing start at worker {extra}") if kind == "startup" else "")
                                 + (", failing calls raise SystemExit (a BaseException)" if kw.get("exc_name") == "SystemExit" else "")
                                 + (f", choices {list(prefix)}" if prefix else "") + f": {dev[1]}"))
     except AnalysisError as e:
@@ -463,7 +481,7 @@ def evaluate_engine(m, er, rankers):
             with mp.get_context("fork").Pool(nproc) as pool:
                 res = pool.map(_eval_chunk, chunks)
         else:
-            res = [_eval_chunk(c) for c in chunks[::6]]  # inside a daemon worker (mutation tier): a sixth of the space
+            res = [_eval_chunk(c[::5]) for c in chunks[::4]]  # inside a daemon worker (mutation tier): a twentieth of the space
     finally:
         _FORK[0] = None
     bad = [b for r, _n, _e in res for b in r]
@@ -527,5 +545,5 @@ def rule_engine_evaluated(ctx, rid, er, aspects, kinds=("run",)):
                    f"{ASPECT_TEXT[a]} - on all {n_eval} evaluations of the engine{where} (small multigraphs x failing sets x max_errors x schedulers x worker counts; "
                    f"every dequeue order of the random scheduler)" if ok else f"{ASPECT_TEXT[a]} - violated{where}: " + " | ".join(d[2] for d in devs[:2])
                    + (f" (+{len(devs) - 2} more)" if len(devs) > 2 else ""))
-    ctx.floor(rid, "evaluations of the engine", n_eval, 200 if getattr(__import__("multiprocessing").current_process(), "daemon", False) else 2000)
+    ctx.floor(rid, "evaluations of the engine", n_eval, 100 if getattr(__import__("multiprocessing").current_process(), "daemon", False) else 2000)
     ctx.notes["engine_evaluations"] = n_eval
